@@ -7,8 +7,10 @@
 package c15
 
 import (
+	"context"
 	"encoding/hex"
 	"encoding/json"
+	"errors"
 	"fmt"
 	"net"
 	"strconv"
@@ -45,6 +47,7 @@ type Scenario struct {
 	DelayMs    int              `json:"delay_ms,omitempty"`
 	TimeoutMs  int              `json:"read_timeout_ms"`
 	ConsumerMs int              `json:"consumer_ms,omitempty"` // the application spends this long on every envelope before it takes the next one off the channel
+	Dial       string           `json:"dial,omitempty"`        // "" a preset connection | ok | refused : Transfer.In makes the connection itself (socket seam of the instrumented build; a preset connection elsewhere)
 	OutPaceMs  int              `json:"out_pace_ms,omitempty"` // sender "out": the application hands Transfer.Out one envelope every so often; with a fudge of 5 s the whole transfer takes longer than the fudge
 	PaceMs     int              `json:"pace_ms,omitempty"`     // scripted sender: pause between envelopes (shorter than the read timeout; the whole transfer may take much longer than it)
 	BadFirst   bool             `json:"bad_first,omitempty"`   // scripted: the sequence does not start with an SOA
@@ -115,6 +118,9 @@ func Gen(seed uint64, tier string) any {
 		sc.DefTimeout, sc.TimeoutMs = true, 2000
 	}
 	sc.QCase = core.Chance(r, 15)
+	if core.Chance(r, 30) {
+		sc.Dial = core.Pick(r, "ok", "ok", "ok", "refused")
+	}
 	if core.Chance(r, 15) {
 		sc.PaceMs = sc.TimeoutMs * core.Pick(r, 3, 6, 8) / 10
 	}
@@ -425,6 +431,8 @@ type run struct {
 	chClosed            bool
 	connClosedAtChClose bool // the connection was already closed when the consumer saw the channel closed
 	inErr               string
+	dials               int
+	refused             bool
 	cliFin              bool
 	sndFin              bool
 	qid                 uint16
@@ -456,6 +464,14 @@ func (c *clientTask) RunEvent(time.Time) {
 	if sc.DefTimeout {
 		t.ReadTimeout = 0
 	}
+	dialling := sc.Dial != "" && common.DialSeam()
+	if dialling {
+		// Transfer.In makes the connection itself
+		t.Conn = nil
+		t.DialTimeout = 3 * time.Second
+		defer common.InstallSockets(&common.Sockets{Dial: x.dial})()
+		x.res.Bump("cover.transfer_dials_itself")
+	}
 	asked := zone
 	if sc.QCase {
 		asked = "XFR.Example."
@@ -471,7 +487,25 @@ func (c *clientTask) RunEvent(time.Time) {
 		t.TsigSecret = secrets()
 		q.SetTsig(keyName, sc.Alg, uint16(sc.Fudge), time.Now().Unix())
 	}
-	env, err := t.In(q, "ignored:53")
+	env, err := t.In(q, "10.0.0.1:53")
+	if dialling {
+		k.Lock()
+		x.res.Stats["oracle.T3_dial_outcome_reported"]++
+		switch {
+		case x.dials != 1:
+			x.res.Fail("T3", "dial-count", "Transfer.In made %d connection attempts, want one", x.dials)
+		case sc.Dial == "refused" && (err == nil || env != nil):
+			x.res.Fail("T3", "error-hidden:dial-refused", "the connection attempt was refused, yet Transfer.In returned (%v, %v)", env != nil, err)
+		}
+		k.Unlock()
+		if sc.Dial == "refused" {
+			x.cliConn.Close() // nobody is coming: let the other side go home
+			k.Lock()
+			x.refused = true
+			k.Unlock()
+			return
+		}
+	}
 	if err != nil {
 		k.Lock()
 		x.inErr = err.Error()
@@ -512,6 +546,22 @@ func (c *clientTask) RunEvent(time.Time) {
 	}
 	x.chClosed, x.closedT, x.connClosedAtChClose = true, time.Now(), closedNow
 	k.Unlock()
+}
+
+// dial answers the connection attempt of Transfer.In (socket seam).
+//
+//go:norace
+func (x *run) dial(d *net.Dialer, ctx context.Context, network, addr string) (net.Conn, error) {
+	x.k.Yield("dial."+network, 0)
+	x.k.Lock()
+	x.dials++
+	x.k.Unlock()
+	x.k.Sleep("dial.wait", 5*time.Millisecond)
+	if x.sc.Dial == "refused" {
+		x.k.Bump("fault.dial_refused")
+		return nil, &net.OpError{Op: "dial", Net: network, Err: errors.New("connect: connection refused")}
+	}
+	return x.cliConn, nil
 }
 
 //go:norace
@@ -781,6 +831,11 @@ func hour() time.Duration { return time.Hour }
 //go:norace
 func (x *run) judge(start0 time.Time) {
 	res, sc := x.res, x.sc
+	if x.refused {
+		res.Nontrivial = true
+		res.Class = fmt.Sprintf("%s/dial-refused/%s", sc.Kind, core.Mode)
+		return
+	}
 	if x.inErr != "" {
 		res.Fail("T1", "in-failed", "Transfer.In failed to send the request: %s", x.inErr)
 		return
